@@ -472,7 +472,12 @@ func multiCLI(c *core.Ctx) {
 
 // Replay re-executes the requests of a corpus / replay file on the real code.
 func Replay(c *core.Ctx, lines []string) {
-	for _, l := range lines {
+	skip, _ := strconv.Atoi(os.Getenv("C07_SKIP"))
+	for li, l := range lines {
+		if li < skip {
+			continue // restarted behind a request that ended the process
+		}
+		replayLine = li
 		f := strings.Split(l, "\t")
 		cli := false
 		if strings.HasSuffix(f[0], "@cli") {
@@ -635,6 +640,73 @@ func depthCase(c *core.Ctx, cli bool) {
 	doDepth(c, cli, mn, mx, c.G.Chance(0.35), c.G.Chance(0.3), n)
 }
 
+// depthLowCase (round 7b): depth intervals whose upper end is at most 1 (and empty ones, min > max) on trees
+// that HAVE an inner branch of depth 1 — a single-child inner node (or a chain of them) above one tip — and,
+// with removeRoot, on rooted trees with a tip hanging off the root (its sister root branch has depth 1).
+// "Depth 1 concerns tips only" is false there: the branch above the single-child node meets the criterion
+// and must go although --tips is not given.
+func depthLowCase(c *core.Ctx, cli bool) {
+	o := opts(c.G)
+	o.Singles = 0
+	if o.MinTips < 3 {
+		o.MinTips = 3
+	}
+	n, _ := c.G.Tree(o)
+	rooted := c.G.Chance(0.4)
+	if rooted {
+		// a tip hanging off a root with two neighbours
+		tipN := &core.N{Name: "tz", E: core.NewE()}
+		tipN.E.Len = c.G.Length(&o)
+		n.E = core.NewE()
+		n.E.Len = c.G.Length(&o)
+		if c.G.Chance(0.5) {
+			n.E.Sup = c.G.Support(&o)
+		}
+		kids := []*core.N{tipN, n}
+		if c.G.Chance(0.5) {
+			kids = []*core.N{n, tipN}
+		}
+		n = &core.N{Kids: kids}
+	}
+	if !rooted || c.G.Chance(0.5) {
+		// single-child nodes above 1-3 of the tips, chains of up to 3
+		var spots [][2]interface{}
+		var walk func(x *core.N)
+		walk = func(x *core.N) {
+			for i, k := range x.Kids {
+				if len(k.Kids) == 0 {
+					spots = append(spots, [2]interface{}{x, i})
+				} else {
+					walk(k)
+				}
+			}
+		}
+		walk(n)
+		for j := 0; j < 1+c.G.Intn(3) && len(spots) > 0; j++ {
+			sp := spots[c.G.Intn(len(spots))]
+			par, i := sp[0].(*core.N), sp[1].(int)
+			for d := 0; d < 1+c.G.Intn(3); d++ {
+				mid := &core.N{E: core.NewE(), Kids: []*core.N{par.Kids[i]}}
+				mid.E.Len = c.G.Length(&o)
+				if c.G.Chance(0.5) {
+					mid.E.Sup = c.G.Support(&o)
+				}
+				par.Kids[i] = mid
+			}
+		}
+	}
+	if !cli && c.G.Chance(0.4) {
+		shufflePPos(c, n, true)
+	}
+	core.NumberEdges(n)
+	iv := [][2]int{{1, 1}, {0, 1}, {1, 1}, {0, 0}, {2, 1}, {1, 0}, {-1, 1}, {1, 2}, {3, 1}}[c.G.Intn(9)]
+	rr := c.G.Chance(0.5)
+	if rooted && c.G.Chance(0.6) {
+		rr = true
+	}
+	doDepth(c, cli, iv[0], iv[1], rr, c.G.Chance(0.15), n)
+}
+
 func removeCase(c *core.Ctx) {
 	n := genTree(c, false)
 	var ids []int
@@ -714,6 +786,9 @@ func Run(c *core.Ctx) {
 	for i := 0; i < c.Scale(40, 1200); i++ {
 		seqCase(c)
 	}
+	for i := 0; i < c.Scale(40, 1500); i++ {
+		depthLowCase(c, false)
+	}
 	if c.Gotree != "" {
 		m := c.Scale(40, 800)
 		for i := 0; i < c.Scale(2, 12); i++ {
@@ -724,6 +799,9 @@ func Run(c *core.Ctx) {
 		}
 		for i := 0; i < m/8; i++ {
 			multiCLI(c)
+		}
+		for i := 0; i < c.Scale(12, 200); i++ {
+			depthLowCase(c, true) // single-child nodes and a tip at the root through `gotree collapse depth`
 		}
 		for i := 0; i < m; i++ {
 			switch i % 4 {
